@@ -5,37 +5,36 @@
 (* functional core (state, action record) -> [st, res, exc].               *)
 (*                                                                         *)
 (* The same ApplyF is used three ways:                                     *)
-(*  (A) the MC_ modules : Next == \E a \in Acts(ms) : ms' = ApplyF(ms, a).st      *)
+(*  (A) the MC_ modules : Next == \E a \in Acts(ms) : ms' = ApplyF(ms, a).st *)
 (*  (B) the explored transitions are printed and replayed on the real code *)
 (*  (C) Trace.tla folds ApplyF over the recorded calls of a real execution *)
-(*      and compares (drift clauses, prefix M_) while the property clauses of     *)
-(*      Clauses.tla are evaluated on the recorded observations only.       *)
+(*      and compares (drift clauses, prefix M_) while the property clauses *)
+(*      of Clauses.tla are evaluated on the recorded observations only.    *)
 (*                                                                         *)
 (* ms.mgr    : manager id -> NamespaceManager state (Names.tla)            *)
-(* ms.handed : ghost: every name a scope has returned,                     *)
-(*             as [s: scope, str: printed form, uri: its URI]              *)
+(* ms.con    : handle -> container (Containers.tla)                        *)
+(* ms.handed : ghost: every name a scope has returned through a direct     *)
+(*             resolution call, as [s: scope, str: printed form, uri]      *)
 (***************************************************************************)
-EXTENDS Names
-
-Ok(st, res)        == [st |-> st, res |-> res, exc |-> "none"]
-Raise(st, exc)     == [st |-> st, res |-> NoQN, exc |-> exc]
+EXTENDS Containers
 
 Hand(s, q) == IF q.ok THEN {[s |-> s, str |-> Printed(q), uri |-> Uri(q)]} ELSE {}
+MgrOf(ms, h) == ms.con[h].mgr
 
-(* ---- namespace operations on a container h (manager id = h) ---- *)
+(* ---- namespace operations on a container h ---- *)
 DoAddNs(ms, a) ==
-  LET r == AddNsF(ms.mgr[a.h], a.p, a.u) IN
-  Ok([ms EXCEPT !.mgr[a.h] = r.st], QN(r.ns[1], r.ns[2], <<>>))
+  LET r == AddNsF(ms.mgr[MgrOf(ms, a.h)], a.p, a.u) IN
+  Ok([ms EXCEPT !.mgr[MgrOf(ms, a.h)] = r.st], QN(r.ns[1], r.ns[2], <<>>))
 
 DoSetDefault(ms, a) ==
-  Ok([ms EXCEPT !.mgr[a.h] = SetDefaultF(@, a.u)], NoQN)
+  Ok([ms EXCEPT !.mgr[MgrOf(ms, a.h)] = SetDefaultF(@, a.u)], NoQN)
 
 DoResQN(ms, a) ==
-  LET r == ResolveQNF(ms.mgr[a.h], a.p, a.ns, a.l) IN
-  Ok([ms EXCEPT !.mgr[a.h] = r.st, !.handed = @ \cup Hand(a.h, r.q)], r.q)
+  LET r == ResolveQNF(ms.mgr[MgrOf(ms, a.h)], a.p, a.ns, a.l) IN
+  Ok([ms EXCEPT !.mgr[MgrOf(ms, a.h)] = r.st, !.handed = @ \cup Hand(a.h, r.q)], r.q)
 
 DoResStr(ms, a) ==
-  LET q == ResolveStrF(ms.mgr, a.h, a.str) IN
+  LET q == ResolveStrF(ms.mgr, MgrOf(ms, a.h), a.str) IN
   Ok([ms EXCEPT !.handed = @ \cup Hand(a.h, q)], q)
 
 ApplyF(ms, a) ==
@@ -43,21 +42,51 @@ ApplyF(ms, a) ==
     [] a.op = "SetDefault" -> DoSetDefault(ms, a)
     [] a.op = "ResQN"      -> DoResQN(ms, a)
     [] a.op = "ResStr"     -> DoResStr(ms, a)
+    [] a.op = "NewRec"     -> DoNewRec(ms, a)
+    [] a.op = "AddAttrs"   -> DoAddAttrs(ms, a)
+    [] a.op = "SetTime"    -> DoSetTime(ms, a)
+    [] a.op = "AddType"    -> DoAddType(ms, a)
+    [] a.op = "AddRecord"  -> DoAddRecord(ms, a)
 
 (* Fold ApplyF over a sequence of actions *)
 RECURSIVE RunF(_, _, _)
 RunF(ms, acts, n) == IF n = 0 THEN ms ELSE ApplyF(RunF(ms, acts, n - 1), acts[n]).st
 
+(* ---- initial worlds (shared by the MC_ modules, Trace.tla and the driver) ---- *)
+(* "docbun": a document "doc" and one bundle "bun" of it (identifier prov:bun)    *)
+InitDocBun ==
+  [mgr |-> ("doc" :> MgrInit("")) @@ ("bun" :> MgrInit("doc")),
+   con |-> ("doc" :> [ConInit("doc", "doc", NoQN, "") EXCEPT !.bundles = <<"bun">>])
+           @@ ("bun" :> ConInit("bun", "bun", ProvQ("bun"), "doc")),
+   handed |-> {}]
+InitDoc ==
+  [mgr |-> ("doc" :> MgrInit("")),
+   con |-> ("doc" :> ConInit("doc", "doc", NoQN, "")),
+   handed |-> {}]
+InitMs(init) ==
+  CASE init = "docbun" -> InitDocBun
+    [] init = "doc"    -> InitDoc
+
 (* ---- projection of the model state, in the shape the harness logs ---- *)
 ProjNs(st) == [reg |-> st.reg, dflt |-> st.dflt]
-ProjAllNs(ms) == [h \in DOMAIN ms.mgr |-> ProjNs(ms.mgr[h])]
-Parents(ms) == [h \in DOMAIN ms.mgr |-> ms.mgr[h].parent]
+ProjAllNs(ms) == [h \in DOMAIN ms.con |-> ProjNs(ms.mgr[ms.con[h].mgr])]
+Parents(ms) == [h \in DOMAIN ms.con |-> ms.con[h].doc]
 
-(* re-resolution table of every handed-out name, as the harness logs it *)
+ProjVal(v) ==
+  CASE v.t = "qn"  -> [t |-> "qn", u |-> Uri(v.q)]
+    [] v.t = "lit" -> [t |-> "lit", v |-> v.v, dt |-> Uri(v.dt)]
+    [] OTHER       -> v
+ProjRec(r) == [k |-> r.k, id |-> IF r.id.ok THEN Uri(r.id) ELSE NONE,
+               attrs |-> {[a |-> Uri(x.a), v |-> ProjVal(x.v)] : x \in r.attrs}]
+ProjCon(c) == [recs |-> [i \in 1..Len(c.recs) |-> ProjRec(c.recs[i])]]
+ProjAllCon(ms) == [h \in DOMAIN ms.con |-> ProjCon(ms.con[h])]
+
+(* re-resolution table of every handed-out name, as the harness logs it;     *)
 (* `up' is what the parent scope alone makes of the printed form            *)
 ReRes(ms) == {[s |-> e.s, str |-> e.str, uri |-> e.uri,
-               now |-> ResolveStrF(ms.mgr, e.s, e.str),
-               up  |-> IF ms.mgr[e.s].parent # "" THEN LocalStr(ms.mgr[ms.mgr[e.s].parent], e.str)
+               now |-> ResolveStrF(ms.mgr, MgrOf(ms, e.s), e.str),
+               up  |-> IF ms.con[e.s].doc # ""
+                       THEN LocalStr(ms.mgr[MgrOf(ms, ms.con[e.s].doc)], e.str)
                        ELSE NoQN]
                : e \in ms.handed}
 
